@@ -25,8 +25,8 @@ import core
 from props.obj_tree import tlc_coverage
 
 DEV_ORDER = ["props_hold_root", "intro_holds_root", "lazy_subscribe"]
-ACTIONS = ["CreateOS", "ClientSend", "ClientReply", "ReaderDeliver", "DispTake", "AcqRootR", "AcqIfR", "AnnounceIfW",
-           "GetIfW", "HStart", "HLocal", "HWantWrite", "HAnnounceW", "HWrote", "Finish"]
+ACTIONS = ["CreateOS", "ClientSend", "ReaderDeliver", "DispTake", "DoClientReply", "DoAcqRootR", "DoAcqIfR", "DoAnnounceIfW",
+           "DoGetIfW", "DoHStart", "DoHYield", "DoHEmit", "DoHWantWrite", "DoHAnnounceW", "DoHWrote", "DoFinish"]
 
 
 def show(sc):
@@ -42,18 +42,19 @@ def replay_obj(sc):
 def model_check(chk, pid):
     t0 = time.time()
     quick = chk.quick
-    # vacuity guard on the small liveness configuration (2 calls, all kinds)
-    cov, gen, dist = tlc_coverage("mc/MC_Dispatch.tla", "mc/MC_Dispatch_cov.cfg", workers=2)
+    # small configuration (2 calls, all kinds) with liveness, run with -coverage: vacuity guard
+    cov, gen, dist = tlc_coverage("mc/MC_Dispatch.tla", "mc/MC_Dispatch_live.cfg", workers=2)
     missing = [a for a in ACTIONS if cov.get(a, 0) == 0]
     if missing:
         raise core.ToolError("vacuity: actions %s of Dispatch never taken (coverage %s)" % (missing, cov))
     chk.cov["mc_action_coverage"] = {a: cov[a] for a in ACTIONS}
+    chk.add("states", dist)
+    chk.add("transitions", gen)
     runs = []
     if pid == "C29":
         runs.append("mc/MC_Dispatch_c29.cfg" if quick else "mc/MC_Dispatch_c29_thorough.cfg")
     else:
         runs.append("mc/MC_Dispatch_c30.cfg" if quick else "mc/MC_Dispatch_c30_thorough.cfg")
-    runs.append("mc/MC_Dispatch_live.cfg")
 
     def one(cfg):
         r = core.tlc("mc/MC_Dispatch.tla", cfg, workers=4 if quick else 8, timeout=3000)
@@ -71,12 +72,14 @@ def model_check(chk, pid):
 
     with ThreadPoolExecutor(max_workers=5) as ex:
         fs = [ex.submit(one, c) for c in runs]
-        ds = [ex.submit(dev, d) for d in (DEV_ORDER if pid == "C30" else [])]
+        # (quick tier: the deviations are exercised by the trace validation below, which needs them to explain
+        # the recorded hangs; the model-level demonstration runs in the thorough tier)
+        ds = [ex.submit(dev, d) for d in (DEV_ORDER if pid == "C30" and not quick else [])]
         for f in fs:
             chk.add_tlc(f.result())
         for f in ds:
             f.result()
-    if pid == "C30":
+    if ds:
         chk.cov["mc_deviation_models_fail_as_expected"] = DEV_ORDER
     core.log("[%s] model checking %.1fs" % (pid, time.time() - t0))
 
@@ -135,17 +138,27 @@ def decide(chk, pid, path, shards=4, workers=3):
             for i in rejected:
                 f.write(json.dumps(scen[i]) + "\n")
 
-        def dev(d):
-            return d, validate(chk, sub, "trace/DispatchTrace_%s.cfg" % d, 1, 3)[0]
-        with ThreadPoolExecutor(max_workers=4) as ex:
-            for d, acc in ex.map(dev, DEV_ORDER + ["all"]):
+        def dev(d, f=sub):
+            return d, validate(chk, f, "trace/DispatchTrace_%s.cfg" % d, 1, 3)[0]
+        with ThreadPoolExecutor(max_workers=3) as ex:
+            for d, acc in ex.map(dev, DEV_ORDER):
                 for i in acc:
                     explained.setdefault(i, []).append(d)
+        rest = [i for i in rejected if i not in explained]
+        if rest:
+            # not explained by any single deviation: try all of them together
+            sub2 = path + ".rejected2"
+            with open(sub2, "w") as f:
+                for i in rest:
+                    f.write(json.dumps(scen[i]) + "\n")
+            for i in dev("all", sub2)[1]:
+                explained.setdefault(i, []).append("all")
     ok = len(done)
     drift = 0
     for i, sc in scen.items():
         m = mon[i]
-        good = m["answered"] and m["ordered"]
+        # C29: order / no overlap (spawn disabled) and every call answered; C30: every call answered
+        good = m["answered"] and (m["ordered"] or pid == "C30")
         if good and i in done:
             continue
         what = {"monitor": {"answered": m["answered"], "ordered": m["ordered"]}, "scenario": show(sc)}
@@ -158,7 +171,7 @@ def decide(chk, pid, path, shards=4, workers=3):
                 chk.notes.append("MODEL-DRIFT %s" % json.dumps(show(sc))[:400])
             continue
         devs = [d for d in DEV_ORDER if d in explained.get(i, [])]
-        if not m["ordered"]:
+        if pid == "C29" and not m["ordered"]:
             key = "order:%s" % ("spawn" if sc["spawn"] else "nospawn")
         elif devs:
             key = devs[0]
@@ -203,16 +216,11 @@ def run(pid, tier, replay):
                     ncfg += 1
                     out.write(json.dumps(c) + "\n")
         obs = chk.path("obs_enum.ndjson")
-        core.run_bin(obj, ["disp-replay", cases, 3 if quick else 8, chk.seed, obs])
+        core.run_bin(obj, ["disp-replay", cases, (3 if pid == "C29" else 2) if quick else 8, chk.seed, obs])
         core.log("[%s] %d configurations generated and run in %.1fs" % (pid, ncfg, time.time() - t0))
-        t0 = time.time()
-        res = decide(chk, pid, obs, shards=4 if quick else 10, workers=3)
-        core.log("[%s] %d enumerated-configuration traces validated in %.1fs" % (pid, len(res[0]), time.time() - t0))
-        return parts, ncfg, res
+        return parts, ncfg, obs
 
     def rand_phase():
-        t0 = time.time()
-        out = []
         classes = [("burst", 200 if quick else 6000)] if pid == "C29" else [("mutate", 150 if quick else 4000), ("lazy", 60 if quick else 600)]
         robs = chk.path("obs_rand.ndjson")
         with open(robs, "w") as f:
@@ -220,27 +228,31 @@ def run(pid, tier, replay):
                 p = chk.path("obs_rand_%s.ndjson" % cls)
                 core.run_bin(obj, ["disp-rand", cls, n, chk.seed, p])
                 f.write(open(p).read())
-        res = decide(chk, pid, robs, shards=3 if quick else 10, workers=3)
-        core.log("[%s] %d random traces validated in %.1fs" % (pid, len(res[0]), time.time() - t0))
-        return res
+        return robs
 
     with ThreadPoolExecutor(max_workers=3) as ex:
         f_mc = ex.submit(model_check, chk, pid)
         f_en = ex.submit(enum_phase)
-        f_rd = ex.submit(rand_phase)
+        robs = rand_phase()
+        parts, ncfg, obs = f_en.result()
+        # one validation pass over all recorded traces (scenario ids are disjoint)
+        t0 = time.time()
+        allobs = chk.path("obs_all.ndjson")
+        with open(allobs, "w") as f:
+            f.write(open(obs).read())
+            f.write(open(robs).read())
+        total, ok, drift = decide(chk, pid, allobs, shards=3 if quick else 12, workers=3)
+        core.log("[%s] %d traces validated in %.1fs" % (pid, len(total), time.time() - t0))
         f_mc.result()
-        parts, ncfg, (scen, ok, drift) = f_en.result()
-        rscen, rok, rdrift = f_rd.result()
+    n_enum = sum(1 for i in total if i < 1000000)
     for _, g, _ in parts:
         chk.add_tlc(g)
-    total = dict(scen)
-    total.update(rscen)
     chk.add("enumerated_configurations", ncfg)
-    chk.add("enumerated_cases", len(scen))
-    chk.add("random_cases", len(rscen))
+    chk.add("enumerated_cases", n_enum)
+    chk.add("random_cases", len(total) - n_enum)
     chk.cov["exhaustive"] = False
-    chk.add("traces_validated_against_impl", ok + rok)
-    chk.cov["model_drift_scenarios"] = drift + rdrift
+    chk.add("traces_validated_against_impl", ok)
+    chk.cov["model_drift_scenarios"] = drift
     chk.cov["scenarios_with_busy_wait"] = sum(1 for s in total.values() if s.get("spun"))
     chk.cov["evaluations"] = sum(len(s["ev"]) for s in total.values())
     chk.cov["distinct_nontrivial"] = len({hashlib.sha1(json.dumps([s["spawn"], s["lazy"], s["calls"], s["ev"]]).encode()).digest()
